@@ -55,10 +55,10 @@ func selftestDeterminism(args []string) int {
 		}
 		flavours := []string{"plain", "race"}
 		if plan.Engine == "curlsim" {
-			flavours = []string{"plain", "race", "purego", "racepurego"}
+			flavours = []string{"plain", "race", "purego", "racepurego", "386"}
 		}
 		if prop == "C13" {
-			flavours = []string{"plain", "race", "auto", "386"}
+			flavours = []string{"plain", "race", "auto", "autorace", "386"}
 		}
 		if prop == "C11" || prop == "C12" {
 			flavours = []string{"plain", "race", "auto"}
@@ -82,8 +82,11 @@ func selftestDeterminism(args []string) int {
 					if f == "auto" || f == "386" {
 						n = nPlain / 2
 					}
-					if f == "racepurego" {
+					if f == "racepurego" || f == "autorace" {
 						n = nRace / 2
+					}
+					if f == "autorace" && rep > 1 {
+						continue
 					}
 					jobs = append(jobs, job{f, g, n})
 				}
@@ -136,7 +139,7 @@ func selftestDeterminism(args []string) int {
 			}
 			for run, rec := range results[i] {
 				ref := results[0][run]
-				if j.flavour == "auto" || j.flavour == "386" || j.flavour == "purego" || j.flavour == "racepurego" {
+				if j.flavour == "auto" || j.flavour == "autorace" || j.flavour == "386" || j.flavour == "purego" || j.flavour == "racepurego" {
 					// another build configuration of the system under test (more yield points, 32 lanes, portable
 					// permutation): compared with the first job of the same flavour
 					for k, jk := range jobs {
